@@ -891,6 +891,12 @@ func (fe *FactEngine) flowBlock(ff *fnFacts, b *ssa.BasicBlock, in DNF, depth in
 // assume adds "cond == sign" to alt, importing callee summaries; may return several alternatives
 // (or none on contradiction).
 func (fe *FactEngine) assume(a *Alt, cond *Term, sign bool, depth int) DNF {
+	if cond.Op == OpConst {
+		if (cond.Name == "true" && !sign) || (cond.Name == "false" && sign) {
+			return nil
+		}
+		return DNF{a}
+	}
 	ats := fe.decompose(cond, sign)
 	if !a.addAtoms(ats) {
 		return nil
